@@ -706,17 +706,22 @@ where
                                 };
                                 client.consts(p, const_req).await
                             });
-                            if let Err(err) = future::try_join_all(const_futs).await
-                                && let Some(url) = policy_cl.output
-                            {
-                                let _ = client
-                                    .output(
-                                        url,
-                                        Err(OutputError::SendConstsError {
-                                            source: Box::new(err),
-                                        }),
-                                    )
-                                    .await;
+                            if let Err(err) = future::try_join_all(const_futs).await {
+                                if let Some(url) = policy_cl.output {
+                                    let _ = client
+                                        .output(
+                                            url,
+                                            Err(OutputError::SendConstsError {
+                                                source: Box::new(err),
+                                            }),
+                                        )
+                                        .await;
+                                }
+                                // Without the constants the other parties can't compile the
+                                // program, so this policy can't complete. Stop the state machine
+                                // (releasing the permit) instead of starting a doomed MPC run.
+                                let _ = cmd_sender.send(PolicyCmd::Stop).await;
+                                return;
                             }
                             // returns an error if the state machine is dropped, nothing to do
                             let _ = client_send.send(client);
